@@ -31,6 +31,8 @@ def jobs(tier):
                    units=PUTVAR_UNITS, unwind=5, object_bits=10, timeout=1500, backend=["--external-sat-solver", "kissat"],
                    desc="a put to a fixed-size variable never changes the record count", functions=PUTVAR_FUNCS,
                    bounds="ndims=1, count<=2, nprocs 2..4", assumptions=STUB_NOTE))
+    from props.C16 import fillrec_jobs
+    out += fillrec_jobs(tier, 'C05.e', inject=False)
     return out
 
 
